@@ -1,5 +1,6 @@
 use crate::runner::SubCheck;
 pub mod c01;
+pub mod c14;
 
 pub struct PropDef {
     pub id: &'static str,
@@ -9,12 +10,13 @@ pub struct PropDef {
 }
 
 pub fn all_ids() -> Vec<&'static str> {
-    vec!["C01"]
+    vec!["C01", "C14"]
 }
 
 pub fn get(id: &str) -> Option<PropDef> {
     match id {
         "C01" => Some(c01::def()),
+        "C14" => Some(c14::def()),
         _ => None,
     }
 }
